@@ -1305,6 +1305,37 @@ func hsRunOnce(t *testing.T, rt *rapid.T, focus string) {
 		tr.Ev("plan focus=%s sched=%s maxStreams=%d upConn=%d upStream=%d maxRead=%d iw=%d mf=%d bound=%d streams=%d ops=%d", focus, p.sched, p.maxStreams, p.upConn, p.upStream, p.maxReadFrame, p.initIW, p.initMF, p.bound, p.nstreams, len(p.ops))
 
 		sim.AddSource(r)
+		if focus == "C10" || focus == "C15" {
+			// Now and then a handler's next operation and a delivery of client bytes
+			// happen in the same step: the server's serve loop then finds the
+			// handler's message and the client's frame pending together.
+			sim.Burst = func(first vs.Event, evs []vs.Event) int {
+				isTask := func(l string) bool { return len(l) > 1 && l[0] == 'h' && strings.Contains(l, ": ") }
+				isDeliver := func(l string) bool { return l == "net h2 A>B deliver" }
+				var want func(string) bool
+				switch {
+				case isTask(first.Label):
+					want = isDeliver
+				case isDeliver(first.Label):
+					want = isTask
+				default:
+					return -1
+				}
+				if sim.C.Intn(100) >= 25 {
+					return -1
+				}
+				var cand []int
+				for i, e := range evs {
+					if want(e.Label) && e.Label != first.Label {
+						cand = append(cand, i)
+					}
+				}
+				if len(cand) == 0 {
+					return -1
+				}
+				return cand[sim.C.Intn(len(cand))]
+			}
+		}
 		sim.Check = r.check
 		sim.Done = func() bool {
 			r.mu.Lock()
